@@ -46,6 +46,30 @@ def r1_tables(run, F):
     return A
 
 
+def r1c_unicode_escape_utf8(run, F, A):
+    """`\\u{..}` inside a literal denotes the UTF-8 encoding of the code point, for every code point: whatever the `u` arm of the
+    escape decoder appends to the literal's bytes comes out of `char::encode_utf8`.  (A "single byte" shortcut through
+    `u8::try_from(char)` is right for ASCII and wrong for U+0080..U+00FF, which take two bytes.)"""
+    from rules import origins
+    b = A.body
+    n = 0
+    for q, arm in sorted(A.quote_arms.items()):
+        ms = [m for m in hirq.matches(arm["body"]) if lexq.is_next(m["scrut"])]
+        for m in ms:
+            for a in m["arms"]:
+                if lexq.char_lits(a["pat"]) != [117]:
+                    continue
+                apps = [c for c in hirq.calls(a["body"]) if c.get("k") == "MethodCall" and c.get("name") in ("push", "extend_from_slice", "extend", "append", "insert", "extend_from_within")
+                        and "Vec<u8>" in str(F.lib.ty(hirq.unwrap_trivial(c["recv"]).get("t"))).replace("std::vec::", "").replace("alloc::vec::", "")]
+                for c in apps:
+                    n += 1
+                    o = origins.origins(b["hir"], c["a"][-1], b.get("params", ()))
+                    ok = any(k[0] == "call" and str(k[1]).endswith("encode_utf8") for k in o)
+                    run.ob("R1-UNICODE-ESCAPE-UTF8", "alpha %s|append %d" % ("string" if q == 34 else "char", n), ok, F.where(b, c),
+                           "the bytes appended for a \\u{..} escape are the output of char::encode_utf8 (origins: %s)" % sorted(str(k[1]).split("::")[-1] for k in o if k[0] == "call")[:8])
+    run.ob("R1-UNICODE-ESCAPE-UTF8", "scan", n >= 1, F.where(b), "%d append(s) to the literal's bytes in the `u` escape arm(s)" % n)
+
+
 def r1b_escape_state(run, F, A):
     """Each escape sequence is decoded from its own characters: a buffer whose *length* decides when an escape is complete
     (`digits.len() == 2` for \\xHH, the hex text of \\u{..}) is created inside the arm that decodes that escape.  Hoisted
@@ -590,6 +614,7 @@ def check(run):
     A = r1_tables(run, F)
     r9_radix_needs_digit(run, F, A)
     r1b_escape_state(run, F, A)
+    r1c_unicode_escape_utf8(run, F, A)
     r2_accumulation(run, F, A)
     r2b_no_narrowing(run, F)
     r3_parser(run, F)
